@@ -26,7 +26,7 @@ func init() {
 }
 
 type c09Case struct {
-	Form     string        `json:"form"`     // EX PX EXAT PXAT DEFAULT EXPIRE PEXPIRE
+	Form     string        `json:"form"` // EX PX EXAT PXAT DEFAULT EXPIRE PEXPIRE
 	SetPath  string        `json:"set_path"`
 	Observer string        `json:"observer"` // Get GetPut Incr NX XX Expire
 	ObsPath  string        `json:"obs_path"`
